@@ -147,7 +147,7 @@ impl Report {
                                 k.clone(),
                                 J::obj().set("size", J::i(v.len() as i64)).set(
                                     "members",
-                                    J::Arr(v.iter().take(24).map(|m| J::s(m.clone())).collect()),
+                                    J::Arr(v.iter().take(150).map(|m| J::s(m.clone())).collect()),
                                 ),
                             )
                         })
